@@ -60,6 +60,25 @@ def run(ck, tier, seed):
                 if hb.fault:
                     return
                 ck.extra.setdefault("impl", {})["Padauk.ttf#unloadable-glyph"] = hb.summary["extra"] if hb.summary else None
+            if font == "Padauk.ttf" and rep == 0 and not h.fault:
+                # fonts without a readable name table: label queries from all threads, still no table callback after loading
+                for kind in ("noname", "name1"):
+                    hn = vlib.run_harness(exe, args[:6] + ["%s.%s" % (trace, kind), seed + 78, empty, kind], timeout=3000)
+                    vlib.absorb(ck, hn)
+                    if hn.fault:
+                        return
+                    if not hn.summary:
+                        raise vlib.Broken("threads harness gave no summary (%s)" % kind)
+                    ck.traces += hn.summary["extra"]["jobs"]
+                    ck.extra.setdefault("impl", {})["Padauk.ttf#" + kind] = hn.summary["extra"]
+                    rvn = vlib.tlc("ThreadsTrace.tla", "ThreadsTrace.cfg", workers=1, env={"TRACE": "%s.%s" % (trace, kind)}, timeout=3000, coverage=False, heap="16g")
+                    if rvn.violation:
+                        ln = open("%s.%s" % (trace, kind)).read().splitlines()
+                        kk = min(rvn.states - 1, len(ln) - 1)
+                        ck.violation("Padauk.ttf (%s), %d threads: event %s is not what a single-threaded run gives (or a table callback happened after gr_make_face)" % (kind, nth, ln[kk][:160]),
+                                     {"why": "ThreadsTrace rejected", "font": "Padauk.ttf#" + kind, "threads": nth, "event": ln[kk]})
+                        return
+                    ck.add_tlc("ThreadsTrace(Padauk.ttf#%s, %d threads, %d events)" % (kind, nth, rvn.states - 1), rvn)
             vlib.absorb(ck, h)
             if h.fault:
                 if "data race" in h.fault.get("report", "") or h.fault.get("kind") == "sanitizer":
